@@ -27,7 +27,7 @@ EXPLANATION = (
     "with u* = kappa*U/ln(elev/z0) for U10 input and u* = U otherwise; total stress adds resolved+tail and the viscous "
     "part per east/north role; the point estimate returns NaN literals or exp(root) of the solver run on that balance "
     "function with hard bounds (-20, 0) on log z0 and the argument tuple lined up with its parameters; the batch wrapper "
-    "maps NaN wind and any exception to NaN. Not decided: the 1e-4 residual, monotonicity in U, uniqueness of the root."
+    "maps NaN wind and any exception to NaN. Bracket bookkeeping of the Newton/secant/bisection hybrid (R10.5): root_bounds[i] and func_at_bounds[i] are stored together from iterates[k]/func_evals[k], in the slot the guard implies, the evaluation dominates the stores, quotients use matching slots. Not decided: the 1e-4 residual, monotonicity in U, uniqueness of the root."
 )
 
 
